@@ -196,7 +196,9 @@ var names64 = []string{"read", "write", "open", "close", "stat", "mmap", "ioctl"
 	"finit_module", "execveat"}
 var names32 = []string{"exit", "fork", "read", "write", "open", "close", "creat", "link", "unlink", "execve", "chdir", "chmod",
 	"mount", "setuid", "ptrace", "kill", "rename", "mkdir", "rmdir", "truncate", "ftruncate", "socketcall", "clone",
-	"init_module", "delete_module", "openat", "open_by_handle_at", "execveat", "bind", "connect", "accept4"}
+	"init_module", "delete_module", "openat", "open_by_handle_at", "execveat", "bind", "connect", "accept4",
+	// old and new entry points that live side by side in the 32-bit table, and names that begin with an underscore
+	"select", "_newselect", "_llseek", "_sysctl", "stat", "oldstat", "umount", "umount2", "mmap", "mmap2"}
 
 // characters with no meaning to a shell-style splitter other than being themselves
 // once quoted; no whitespace, quotes or backslash (C07's domain)
